@@ -95,6 +95,12 @@ type outcome struct {
 // engineAt >= 0: the engineAt-th engine call answers v. cancelFrom >= 0: cancellation from that poll on.
 // plain: use context.Background() (no instrumentation of the context).
 func transition(c *chain.Chain, st *chain.Step, cancelFrom int, engineAt int, v chain.Verdict, plain bool) (o outcome) {
+	return transitionM(c, st, cancelFrom, engineAt, v, plain, false)
+}
+
+// transitionM: slotsOnly runs only common.ProcessSlots up to the step's slot (the block, if any, is left
+// out), so that the LAST polls of slot/epoch/upgrade processing are not followed by block-processing polls.
+func transitionM(c *chain.Chain, st *chain.Step, cancelFrom int, engineAt int, v chain.Verdict, plain bool, slotsOnly bool) (o outcome) {
 	spec := *c.Spec
 	eng := chain.NewMockEngine(&spec)
 	idx := 0
@@ -118,7 +124,7 @@ func transition(c *chain.Chain, st *chain.Step, cancelFrom int, engineAt int, v 
 	if !plain {
 		ctx = cc
 	}
-	if st.Skipped || st.Block == nil {
+	if slotsOnly || st.Skipped || st.Block == nil {
 		o.err = common.ProcessSlots(ctx, &spec, epc, state, st.Slot)
 	} else {
 		o.err = common.StateTransition(ctx, &spec, epc, state, st.EnvelopeOf(st.Block), true)
@@ -185,6 +191,18 @@ func gen(o hreg.Opts, w *bufio.Writer) error {
 					fmt.Fprintf(w, "cancel %s %d %d %d\n", pre, si, i, cl.polls)
 				}
 			}
+			if !(st.Skipped || st.Block == nil) {
+				// the same slot processing without the block: every poll, and one beyond
+				so := transitionM(c, st, -1, -1, chain.EngineValid, false, true)
+				if so.err != nil {
+					return fmt.Errorf("chain %v step %d: clean slots-only run failed: %v", k, si, so.err)
+				}
+				o.Stats.Add("slots-only-polls", fmt.Sprintf("%d+", so.polls/10*10))
+				fmt.Fprintf(w, "clean-s %s %d\n", pre, si)
+				for i := 0; i <= so.polls; i++ {
+					fmt.Fprintf(w, "cancel-s %s %d %d %d\n", pre, si, i, so.polls)
+				}
+			}
 			for j := 0; j <= len(cl.calls); j++ {
 				for _, v := range []string{"invalid", "error"} {
 					fmt.Fprintf(w, "engine %s %d %d %d %s\n", pre, si, j, len(cl.calls), v)
@@ -247,6 +265,34 @@ func exec(o hreg.Opts, sc *bufio.Scanner, w *bufio.Writer) error {
 					return "differs from the chain's own post-state root"
 				}
 				return "same"
+			case "clean-s":
+				a := transitionM(c, st, -1, -1, chain.EngineValid, false, true)
+				b := transitionM(c, st, -1, -1, chain.EngineValid, true, true)
+				if (a.err == nil) != (b.err == nil) || a.root != b.root {
+					return fmt.Sprintf("differs instrumented-err=%v plain-err=%v", a.err != nil, b.err != nil)
+				}
+				return "same"
+			case "cancel-s":
+				if len(f) != 8 {
+					return "bad-op"
+				}
+				kk, e1 := strconv.Atoi(f[6])
+				nn, e2 := strconv.Atoi(f[7])
+				if e1 != nil || e2 != nil {
+					return "bad-op"
+				}
+				cl := transitionM(c, st, -1, -1, chain.EngineValid, false, true)
+				if cl.polls != nn {
+					return "polls-mismatch"
+				}
+				r := transitionM(c, st, kk, -1, chain.EngineValid, false, true)
+				if r.err != nil {
+					return "err"
+				}
+				if r.root == cl.root {
+					return "same"
+				}
+				return "ok-with-different-root"
 			case "cancel":
 				if len(f) != 8 {
 					return "bad-op"
@@ -339,6 +385,21 @@ func checkArgs(c *chain.Chain, st *chain.Step, calls []chain.EngineCall) string 
 		return "ok"
 	}
 	var problems []string
+	// the specification's verify_and_notify_new_payload: is_valid_block_hash, (deneb: is_valid_versioned_hashes,) notify_new_payload
+	want := map[chain.Fork][]string{
+		chain.Bellatrix: {"BellatrixIsValidBlockHash", "BellatrixNotifyNewPayload"},
+		chain.Capella:   {"CapellaIsValidBlockHash", "CapellaNotifyNewPayload"},
+		chain.Deneb:     {"DenebIsValidBlockHash", "DenebIsValidVersionedHashes", "DenebNotifyNewPayload"},
+	}[st.Block.Fork]
+	if len(calls) > 0 || st.Block.Fork >= chain.Capella {
+		var got []string
+		for _, call := range calls {
+			got = append(got, call.Method)
+		}
+		if strings.Join(got, ",") != strings.Join(want, ",") {
+			problems = append(problems, "call-sequence:"+strings.Join(got, "+"))
+		}
+	}
 	sawNotify := false
 	for _, call := range calls {
 		if call.PayloadRoot != payloadRoot {
